@@ -129,7 +129,17 @@ def u_rows_break3(rows):
         yield row
 
 
-USER = {'u_rows_first2': ('rows', u_rows_first2), 'u_rows_break3': ('rows', u_rows_break3),
+def u_pkg_rename_first(package):
+    # documented style: edit the descriptor, yield it, pass the resources on
+    names = [r['name'] for r in package.pkg.descriptor['resources']]
+    if names and 'people' not in names:
+        package.pkg.descriptor['resources'][0]['name'] = 'people'
+        package.pkg.descriptor['resources'][0]['path'] = 'people.csv'
+    yield package.pkg
+    yield from package
+
+
+USER = {'u_pkg_rename_first': ('package', u_pkg_rename_first), 'u_rows_first2': ('rows', u_rows_first2), 'u_rows_break3': ('rows', u_rows_break3),
         'u_arr_append': ('row', u_arr_append), 'u_bump_n': ('row', u_bump_n), 'u_upper_s': ('row', u_upper_s),
         'u_rows_drop_odd': ('rows', u_rows_drop_odd), 'u_rows_twice_n': ('rows', u_rows_twice_n),
         'u_pkg_title': ('package', u_pkg_title), 'u_pkg_neg_n': ('package', u_pkg_neg_n)}
@@ -912,6 +922,8 @@ class User:
 
     @staticmethod
     def shape(spec, shape):
+        if spec['fn'] == 'u_pkg_rename_first' and shape and 'people' not in [r['name'] for r in shape]:
+            shape[0]['name'] = 'people'
         return shape
 
     @staticmethod
